@@ -1,10 +1,10 @@
 (* C01 judge command 17: an edit history through the model of AnalyzedSource::update up to the tree.
      args:   n old[n] q ( k ( cs ce m ins[m] ){k} ){q}        q notifications of k changes each
-     output: 0 then per notification   0 div len enc[len]   (div = 1: the model's updated tree differs from a
-             parse from scratch of the same tokens, i.e. the known divergence of the pinned incremental parser;
-             enc = enc_program of the updated tree) | 1 (panic inside parser::update; the history ends)
-             | 2 out of fuel | 3 a change does not address the current text *)
-From Spl Require Import Judge.DumpAst Model.Update.
+     output: 0 then per notification   0 div len enc[len]   (div = 1: the updated document differs from a fresh
+             analysis of its text, i.e. the known divergence of the pinned incremental parser; enc = the whole
+             updated document: tree with every attached diagnostic, errors() (or a marker when it panics), table)
+             | 1 (update panics; the history ends) | 2 out of fuel | 3 a change does not address the current text *)
+From Spl Require Import Judge.DumpAst Judge.RunSem Model.UpdateDoc.
 
 Fixpoint take_bytes' (n : N) (s : text) (fuel : nat) : option (text * text) :=
   if n =? 0 then Some ([], s) else
@@ -30,28 +30,35 @@ Definition split_change (t : text) (cs ce : N) : option (text * text * text) :=
   | None => None
   end.
 
-Definition tree_differs (doc : pdoc) : N :=
-  match parse (p_toks doc) with
-  | Done p => if nlist_eqb (enc_program p) (enc_program (p_tree doc)) then 0 else 1
+Definition enc_doc (d : doc) : list N :=
+  enc_program (d_ast d) ++
+  match doc_errors d with
+  | Done errs => 1 :: enc_list enc_berr errs
+  | _ => [0]
+  end ++ enc_gtable (d_table d).
+
+Definition doc_differs (d : doc) : N :=
+  match new_doc (d_text d) with
+  | Done f => if nlist_eqb (enc_doc f) (enc_doc d) then 0 else 1
   | _ => 1
   end.
 
 Definition split_at' (n : N) (l : list N) : list N * list N :=
   (firstn (N.to_nat n) l, skipn (N.to_nat n) l).
 
-(* the k changes of one notification *)
-Fixpoint run_changes (k : nat) (doc : pdoc) (l : list N) : option (outcome pdoc * list N) :=
+(* the k changes of one notification as a/d/b decompositions of the successive texts *)
+Fixpoint read_changes (k : nat) (t : text) (l : list N) : option (list tchange * list N) :=
   match k with
-  | O => Some (Done doc, l)
+  | O => Some ([], l)
   | S k' =>
       match l with
       | cs :: ce :: m :: r =>
           let (ins, r') := split_at' m r in
-          match split_change (p_text doc) cs ce with
+          match split_change t cs ce with
           | Some (a, d, b) =>
-              match pstep doc a d b ins with
-              | Done doc' => run_changes k' doc' r'
-              | o => Some (o, r')
+              match read_changes k' (a ++ ins ++ b) r' with
+              | Some (cl, r2) => Some ({| c_a := a; c_d := d; c_b := b; c_ins := ins |} :: cl, r2)
+              | None => None
               end
           | None => None
           end
@@ -59,18 +66,19 @@ Fixpoint run_changes (k : nat) (doc : pdoc) (l : list N) : option (outcome pdoc 
       end
   end.
 
-Fixpoint run_notes (q : nat) (doc : pdoc) (l : list N) : list N :=
+Fixpoint run_notes (q : nat) (d : doc) (l : list N) : list N :=
   match q with
   | O => []
   | S q' =>
       match l with
       | k :: r =>
-          match run_changes (N.to_nat k) doc r with
-          | Some (Done doc', r') =>
-              let e := enc_program (p_tree doc') in
-              0 :: tree_differs doc' :: nlen e :: e ++ run_notes q' doc' r'
-          | Some (Panic, _) => [1]
-          | Some (OutOfFuel, _) => [2]
+          match read_changes (N.to_nat k) (d_text d) r with
+          | Some (cl, r') =>
+              match update_doc d cl with
+              | Done d' => let e := enc_doc d' in 0 :: doc_differs d' :: nlen e :: e ++ run_notes q' d' r'
+              | Panic => [1]
+              | OutOfFuel => [2]
+              end
           | None => [3]
           end
       | [] => [3]
@@ -83,8 +91,8 @@ Definition run_hist (args : list N) : list N :=
       let (old, rest1) := split_at' n rest in
       match rest1 with
       | q :: r =>
-          match pnew old with
-          | Done doc => 0 :: run_notes (N.to_nat q) doc r
+          match new_doc old with
+          | Done d => 0 :: run_notes (N.to_nat q) d r
           | Panic => [1]
           | OutOfFuel => [2]
           end
